@@ -73,7 +73,7 @@ M = [
  ('save-damages-original', 'ocp.py', "    def save(self,name):\n        self._untranscribe()", "    def save(self,name):\n        self._untranscribe()\n        self._initial = type(self._initial)()", ['C18']),
  # --- C12
  ('clone-ignores-T-override', 'stage.py', '        if "T" not in kwargs:\n            ret._T = copy(self._T)', '        if True:\n            ret._T = copy(self._T)', ['C12']),
- ('clone-shares-initial', 'stage.py', "        ret._initial = HashOrderedDict(zip(res[n_constr+1:], self._initial.values()))", "        ret._initial = HashOrderedDict()", ['C12']),
+ ('clone-shares-initial', 'stage.py', "        ret._initial = HashOrderedDict(zip(res[n_constr+1:], initial_values))", "        ret._initial = HashOrderedDict()", ['C12']),
  ('stage-objective-dropped', 'sampling_method.py', "    def add_objective(self, stage, opti):\n        opti.add_objective(self.eval(stage, stage._objective))", "    def add_objective(self, stage, opti):\n        if stage is stage.master or stage.master._stages[0] is stage: opti.add_objective(self.eval(stage, stage._objective))", ['C12']),
  ('master-eval-wrong-stage', 'sampling_method.py', "        return stage.master._method.eval_top(stage.master,\n                                             stage._expr_apply(expr,\n                                                               p=veccat(*self.P),", "        return stage.master._method.eval_top(stage.master,\n                                             stage.master._stages[0]._expr_apply(expr,\n                                                               p=veccat(*self.P),", ['C12']),
 ]
